@@ -20,16 +20,32 @@ type C10Job struct {
 	Concurrent int         `json:"concurrent"` // goroutines of the concurrent part (0 = skip)
 	Rounds     int         `json:"rounds"`
 	R          AR          `json:"r"`
+	// lazy-cache behaviours: stale hit, the caller overwrites what it was served, the refresh yields no answer
+	LazyBeh []Behaviour `json:"lazy_beh"`
 }
 
 // mutateAll overwrites every reachable field of the real *dns.Msg in place: header, question, every
 // RR header, every rdata field (strings, integers, byte slices and net.IP bytes in place, elements
 // of string slices and option slices), then every slot of the section slices up to their CAPACITY,
 // and finally truncates the sections.
-func mutateAll(m *dns.Msg) {
+func mutateAll(m *dns.Msg) { mutateMsg(m, false) }
+
+// mutateMsg with edit=true is what a well-behaved later plugin does (ttl / redirect / ecs-like): it rewrites
+// owner names, TTLs and record data in place and appends a record, but leaves the header, the question and
+// the number of records alone — so the message still looks like a storable answer.
+func mutateMsg(m *dns.Msg, edit bool) {
 	if m == nil {
 		return
 	}
+	hdr := m.MsgHdr
+	var qs []dns.Question
+	qs = append(qs, m.Question...)
+	defer func() {
+		if edit {
+			m.MsgHdr = hdr
+			m.Question = append(m.Question[:0], qs...)
+		}
+	}()
 	seen := map[uintptr]bool{}
 	var walk func(v reflect.Value, depth int)
 	walk = func(v reflect.Value, depth int) {
@@ -88,6 +104,10 @@ func mutateAll(m *dns.Msg) {
 		}
 	}
 	walk(reflect.ValueOf(m), 0)
+	if edit {
+		m.Answer = append(m.Answer, &dns.A{Hdr: dns.RR_Header{Name: "appended.", Rrtype: dns.TypeA, Class: 1, Ttl: 4242}, A: net.IPv4(203, 0, 113, 7).To4()})
+		return
+	}
 	junk := func() dns.RR {
 		return &dns.A{Hdr: dns.RR_Header{Name: "junk.", Rrtype: dns.TypeA, Class: 1, Ttl: 424242}, A: net.IPv4(203, 0, 113, 9).To4()}
 	}
@@ -129,7 +149,7 @@ func runC10(j *C10Job) error {
 				n := 0
 				for _, h := range w.handles {
 					if h.i == st.Hd.I && h.id == st.Hd.Id && h.kind == st.Hd.Kind {
-						mutateAll(h.msg)
+						mutateMsg(h.msg, bi%2 == 1)
 						n++
 					}
 				}
@@ -140,6 +160,22 @@ func runC10(j *C10Job) error {
 		}
 		w.close()
 		vh.Emit(TraceRec{Kind: "trace", Beh: bi, Tag: "sequential", Events: w.events, Slow: w.slow})
+	}
+	for bi := range j.LazyBeh {
+		for _, p1 := range []bool{true, false} {
+			var rec TraceRec
+			for attempt := 0; attempt < 3; attempt++ {
+				rec, err = runLazy(bi, &j.LazyBeh[bi], &j.Map, hv, lazyOpts{Mult: 1, Procs1: p1, Tag: "lazy-mutate"})
+				if err != nil {
+					return fmt.Errorf("lazy behaviour %d: %w", bi, err)
+				}
+				if !rec.Slow {
+					break
+				}
+			}
+			rec.Beh = -2 - bi
+			vh.Emit(rec)
+		}
 	}
 	if j.Concurrent > 0 {
 		return c10Concurrent(j, hv)
